@@ -360,7 +360,7 @@ def gen_td(rng, n, tag='d', nmax=300):
                 L.append('quant %d %d' % (i, f64bits(q)))
             for x in [min(vals) - 1.0, min(vals), max(vals), max(vals) + 1.0, rng.choice(vals), rng.uniform(min(vals), max(vals) + 1e-9)]:
                 L.append('cdf %d %d' % (i, f64bits(x)))
-        out.append(case('%s%d' % (tag, c), 'td', {}, L))
+        out.append(case('%s%d' % (tag, c), 'td', {'rank': 0} if shape == 'huge' else {}, L))
     return out
 def ulps(x, k):
     """x moved by k units in the last place"""
